@@ -272,6 +272,10 @@ class World:
                     return "object twice"
                 seen.add(id(o))
                 stack.extend(c for c, _f, _i in Z.kids_pos(o))
+        if op.a.get("cyc"):
+            # operations built to be REJECTED whose argument is an ancestor of the receiver / the receiver itself:
+            # inadmissible as successful operations, legitimate as rejected ones (every call runs under the alarm)
+            return None
         if recv is not None and args:
             up = self.up_set(recv)
             if any(id(o) in up for o in self.closure(args)):
@@ -631,10 +635,24 @@ class Gen:
 
     def fresh_leaf(self):
         r = self.rng
-        cls = r.choice(["LLeaf", "LLeaf", "LLeaf2"])
+        cls = r.choice(["LLeaf", "LLeaf", "LLeaf2", "LFLeaf"])
         op = Op(self.uid(), "new", None, {"cls": cls, "v": r.randint(0, 3), "tag": r.choice(["", "t"]),
                                          "id": None, "org": r.randint(0, 2), "eu": False, "asdup": False,
                                          "det": r.random() < 0.1, "kids": {}})
+        out = self.run(op)
+        if out[0] == "ok" and out[1] is not None:
+            return self.w.objs[out[1]]
+        return None
+
+    def fresh_falsy(self):
+        """a node that is False in a boolean context: an empty container-like node or a falsy leaf,
+        detached or attached"""
+        r = self.rng
+        cls = r.choice(["LFTup", "LFLst", "LFLeaf"])
+        kids = {} if cls == "LFLeaf" else {"items": []}
+        op = Op(self.uid(), "new", None, {"cls": cls, "v": r.randint(0, 3), "tag": r.choice(["", "t"]),
+                                         "id": None, "org": r.randint(0, 2), "eu": False, "asdup": False,
+                                         "det": r.random() < 0.6, "kids": kids})
         out = self.run(op)
         if out[0] == "ok" and out[1] is not None:
             return self.w.objs[out[1]]
@@ -734,10 +752,10 @@ class Gen:
             return self.gen_new()
         if k == "attach":
             o = self.any_obj("det")
-            return o and Op(self.uid(), "attach", self.name(o))
+            return None if o is None else Op(self.uid(), "attach", self.name(o))
         if k == "detach":
             o = self.any_obj(r.choice(["root", "root", "att", "det"]))
-            return o and Op(self.uid(), "detach", self.name(o), {"only_self": r.random() < 0.5})
+            return None if o is None else Op(self.uid(), "detach", self.name(o), {"only_self": r.random() < 0.5})
         if k == "replace":
             o = self.any_obj(r.choice(["att", "att", "sub", "det"]))
             if o is None:
@@ -797,13 +815,13 @@ class Gen:
                 return None
             if r.random() < 0.25:
                 return Op(self.uid(), "rwith", self.name(o), {"new": None})
-            n = self.pick_child(0.08)
+            n = self.fresh_falsy() if r.random() < 0.2 else self.pick_child(0.08)
             if n is None or n is o:
                 return None
             return Op(self.uid(), "rwith", self.name(o), {"new": self.name(n)})
         if k == "dup":
             o = self.any_obj(r.choice(["att", "det"]))
-            return o and Op(self.uid(), "dup", self.name(o), {"clone": r.random() < 0.4})
+            return None if o is None else Op(self.uid(), "dup", self.name(o), {"clone": r.random() < 0.4})
         if k in ("tvisit", "texec"):
             o = self.any_obj(r.choice(["root", "root", "sub", "det"]))
             if o is None:
@@ -828,7 +846,7 @@ class Gen:
     def step(self):
         for _ in range(8):
             op = self.gen_op()
-            if not op:
+            if op is None:
                 continue
             out = self.run(op)
             if out[0] != "skip":
@@ -854,7 +872,7 @@ class RejectGen(Gen):
         return None
 
     def leaf(self, det=False):
-        o = self.mk(self.rng.choice(["LLeaf", "LLeaf2"]), det=det)
+        o = self.mk(self.rng.choice(["LLeaf", "LLeaf2", "LFLeaf"]), det=det)
         return o
 
     def sibling(self):
@@ -872,7 +890,7 @@ class RejectGen(Gen):
     def small_tree(self):
         """an attached root with a few children"""
         r = self.rng
-        cls = r.choice(["LTup", "LLst", "LBin", "LMixed", "LUn", "LOpt"])
+        cls = r.choice(["LTup", "LLst", "LBin", "LMixed", "LUn", "LOpt", "LFTup", "LFLst", "LFUn"])
         kids = {}
         for fname, kind, _al in Z.CLASSES[cls]["fields"]:
             if kind in ("tup", "lst"):
@@ -910,9 +928,9 @@ class RejectGen(Gen):
         for _ in range(depth):
             if o is None:
                 return None
-            cls = self.rng.choice(["LUn", "LOpt", "LTup"])
+            cls = self.rng.choice(["LUn", "LOpt", "LTup", "LFUn", "LFTup"])
             f = Z.CLASSES[cls]["fields"][0][0]
-            o = self.mk(cls, {f: [self.name(o)] if cls == "LTup" else self.name(o)}, det=True)
+            o = self.mk(cls, {f: [self.name(o)] if cls in ("LTup", "LFTup") else self.name(o)}, det=True)
         return o
 
     def kids_with(self, poison, where: str):
@@ -935,7 +953,7 @@ class RejectGen(Gen):
                 kids = {"z": names[0], "items": names[1:-1], "a": None, "xs": [names[-1]]}
                 return cls, kids
             x = self.leaf()
-            return cls, {"z": self.name(x) if x else None, "items": names, "a": None, "xs": []}
+            return cls, {"z": self.name(x) if x is not None else None, "items": names, "a": None, "xs": []}
         return cls, {"items": names}
 
     def gen_reject(self):
@@ -944,7 +962,8 @@ class RejectGen(Gen):
         kind = r.choice(["new-dup", "new-twin", "new-parent", "new-registry", "new-id",
                          "attach-parent", "attach-registry", "attach-rootid",
                          "replace-bad", "replace-dup", "replace-parent", "replace-registry",
-                         "rwith-subtree", "rwith-none", "rwith-type", "rwith-attach-parent", "rwith-attach-registry"]
+                         "rwith-subtree", "rwith-none", "rwith-type", "rwith-attach-parent", "rwith-attach-registry",
+                         "rwith-ancestor", "rwith-ancestor", "rwith-self", "rwith-falsy"]
                         + (["tvisit-raise", "tvisit-none", "tvisit-type", "texec-type", "tvisit-detached"]
                            if self.transformers else []))
         where = r.choice(["first", "middle", "last"])
@@ -1058,6 +1077,73 @@ class RejectGen(Gen):
             else:
                 val = self.name(p)
             return Op(self.uid(), "replace", self.name(recv), {"changes": {f: val}, "bad": []}), label
+        if kind == "rwith-ancestor":
+            # the replacement is the receiver's parent / grandparent / the root of its own tree, the receiver at the
+            # first / middle / last position of a recursive container
+            recv = self.small_tree() if r.random() < 0.6 else self.leaf()
+            sibs = [x for x in (self.leaf(), self.leaf()) if x is not None]
+            if recv is None:
+                return None
+            j = {"first": 0, "middle": 1 if sibs else 0, "last": len(sibs)}[where]
+            seq = sibs[:j] + [recv] + sibs[j:]
+            cls = r.choice(["LTup", "LLst", "LFTup", "LMixed"])
+            names = [self.name(x) for x in seq]
+            if cls == "LMixed":
+                z = self.leaf()
+                if z is None:
+                    return None
+                par = self.mk(cls, {"z": self.name(z), "items": names, "a": None, "xs": []})
+            else:
+                par = self.mk(cls, {"items": names})
+            if par is None:
+                return None
+            new = par
+            if depth > 0:
+                # put the parent under a grandparent (and that under a great-grandparent): as soon as the
+                # replacement has a parent itself the pre-check rejects.  NOTE: a grandparent that is an attached
+                # ROOT is not used: the unchanged library does not reject it, it builds a cycle and never returns
+                # (the statement's "never puts a node under its own descendant" excludes such calls).
+                cls2 = r.choice(["LUn", "LTup", "LFUn", "LBin"])
+                if cls2 == "LBin":
+                    y = self.leaf()
+                    if y is None:
+                        return None
+                    top = self.mk(cls2, {"left": self.name(par), "right": self.name(y)})
+                elif cls2 == "LTup":
+                    top = self.mk(cls2, {"items": [self.name(par)]})
+                else:
+                    top = self.mk(cls2, {"arg": self.name(par)})
+                if top is None:
+                    return None
+                if r.random() < 0.5:
+                    top2 = self.mk("LUn", {"arg": self.name(top)})
+                    if top2 is None:
+                        return None
+                    new = top if r.random() < 0.6 else par
+                else:
+                    new = par
+            return Op(self.uid(), "rwith", self.name(recv), {"new": self.name(new), "cyc": True}), label
+        if kind == "rwith-self":
+            roots, subs, det = self.pool()
+            pools = [p for p in (roots, subs, det) if p]
+            if not pools:
+                return None
+            recv = r.choice(r.choice(pools))
+            return Op(self.uid(), "rwith", self.name(recv), {"new": self.name(recv), "cyc": True}), label
+        if kind == "rwith-falsy":
+            # a falsy replacement for a child (or root / detached receiver)
+            roots, subs, det = self.pool()
+            recv = r.choice(subs) if subs and r.random() < 0.8 else None
+            if recv is None:
+                t = self.small_tree()
+                ks = Z.kids_pos(t) if t is not None else []
+                if not ks:
+                    return None
+                recv = {"first": ks[0], "middle": ks[len(ks) // 2], "last": ks[-1]}[where][0]
+            new = self.fresh_falsy()
+            if new is None or new is recv:
+                return None
+            return Op(self.uid(), "rwith", self.name(recv), {"new": self.name(new)}), label
         if kind.startswith("rwith-"):
             roots, subs, det = self.pool()
             if kind == "rwith-subtree":
@@ -1169,10 +1255,69 @@ class RejectGen(Gen):
             return Op(self.uid(), "texec", self.name(t), {"rules": rules}), label
         return None
 
+    def peel_and_reattach(self):
+        """a directed SUCCESSFUL scenario: take a tree apart level by level with detach_self(), change something
+        below the part that is still attached, and put the whole tree back (attach / a new parent over the top /
+        replace_with by the top): content ids must propagate through all re-attached levels"""
+        r = self.rng
+        depth = r.randint(2, 4)
+        node = self.leaf()
+        if node is None:
+            return
+        target = node
+        chain = []
+        for _ in range(depth + 1):
+            cls = r.choice(["LUn", "LOpt", "LTup", "LLst", "LBin", "LFUn", "LFTup", "LMixed"])
+            nm = self.name(node)
+            if cls in ("LUn", "LFUn"):
+                kids = {"arg": nm}
+            elif cls == "LOpt":
+                kids = {"c": nm}
+            elif cls == "LBin":
+                y = self.leaf()
+                if y is None:
+                    return
+                kids = {"left": nm, "right": self.name(y)} if r.random() < 0.5 else {"left": self.name(y), "right": nm}
+            elif cls == "LMixed":
+                y = self.leaf()
+                if y is None:
+                    return
+                kids = {"z": self.name(y), "items": [nm], "a": None, "xs": []}
+            else:
+                sib = [self.leaf() for _ in range(r.randint(0, 2))]
+                names = [self.name(x) for x in sib if x is not None]
+                j = r.randint(0, len(names))
+                kids = {"items": names[:j] + [nm] + names[j:]}
+            node = self.mk(cls, kids)
+            if node is None:
+                return
+            chain.append(node)
+        # peel k >= 2 levels from the top
+        k = r.randint(2, depth)
+        for lvl in range(k):
+            self.run(Op(self.uid(), "detach", self.name(chain[-1 - lvl]), {"only_self": True}))
+        # change the leaf below the still attached part
+        if r.random() < 0.7:
+            self.run(Op(self.uid(), "replace", self.name(target), {"changes": {"v": target.v + 5}, "bad": []}))
+        else:
+            n = self.leaf()
+            if n is not None:
+                self.run(Op(self.uid(), "rwith", self.name(target), {"new": self.name(n)}))
+        top = chain[-1]
+        x = r.random()
+        if x < 0.6:
+            self.run(Op(self.uid(), "attach", self.name(top)))
+        elif x < 0.8:
+            self.mk("LUn", {"arg": self.name(top)})
+        else:
+            old = self.leaf()
+            if old is not None:
+                self.run(Op(self.uid(), "rwith", self.name(old), {"new": self.name(top)}))
+
     def reject_step(self):
         for _ in range(6):
             g = self.gen_reject()
-            if not g:
+            if g is None:
                 continue
             op, label = g
             out = self.run(op, allow_repeat=True, label=label)
@@ -1281,6 +1426,8 @@ def run_history(rng: random.Random, length: int, transformers: bool, rejects: in
         if g.dead:
             break
         g.step()
+    if not g.dead and rng.random() < 0.6:
+        g.peel_and_reattach()
     for _ in range(rejects):
         if g.dead:
             break
